@@ -171,6 +171,13 @@ func runC06(p params) error {
 	if p.tier == "thorough" {
 		n = 2500
 	}
+	// corpus: the ramp reaching the 16384 cap before the 128 KiB boost, the boost itself, sizing off
+	for i, su := range suites {
+		big := [][]int{{1, 4096}, {16384}, {65536}, {20000}}[i]
+		c06AddCase(out, "corpus-ramp-cap", c06Input{Suite: su, Writes: []int{200000}, Bufs: big, Dir: []string{"c2s", "s2c"}[i%2]})
+		c06AddCase(out, "corpus-ramp-cap", c06Input{Suite: su, Writes: []int{60000, 60000, 1}, Bufs: big, Seg: []int{1400}, Dir: "c2s"})
+		c06AddCase(out, "corpus-sizing-off", c06Input{Suite: su, DynOff: true, Writes: []int{16384*3 + 5, 16384, 16385}, Bufs: big, Dir: "s2c"})
+	}
 	for i := 0; i < n; i++ {
 		in := c06Input{Suite: suites[i%4], DynOff: r.IntN(3) == 0, Dir: []string{"c2s", "s2c"}[r.IntN(2)]}
 		small := r.IntN(2) == 0
